@@ -268,13 +268,16 @@ class Session:
         pump(self.loop, 1)
 
     # -- generic kill clauses ------------------------------------------------------------------------------
-    def check_kill_error(self, d, k, error_hooks, excused_by=()):
-        """flow.error set and an error hook for the flow fired after the kill."""
+    def check_kill_error(self, d, k, error_hooks, excused_by=(), ended_before=()):
+        """flow.error set and an error hook for the flow fired after the kill (excused_by: a hook that excludes the error hook
+        whenever it fires; ended_before: the flow's end hook had already fired when it was killed -- it was over)."""
         f = k["flow"]
         self.ctx.count("kill.error")
         names_after = [name for (step, name, hook, snap) in d.hooks[k["hook_idx"] :] if hook.args() and hook.args()[0] is f]
         names_all = [name for (step, name, hook, snap) in d.hooks if hook.args() and hook.args()[0] is f]
-        ok = f.error is not None and (any(n in error_hooks for n in names_after) or any(n in excused_by for n in names_all))
+        # (single-flow layers only) the layer had already issued the flow's end hook when the kill came
+        over = any(e[0] == "cmd" and e[1] < k["step"] and e[2] in [f"Hook({n})" for n in ended_before] for e in d.log)
+        ok = f.error is not None and (any(n in error_hooks for n in names_after) or any(n in excused_by for n in names_all) or over)
         if not ok:
             self.violate(
                 "killed-flow-did-not-end-with-an-error",
@@ -412,7 +415,7 @@ def finish_stream_case(ctx, S, d, proto, sent, msg_hook):
         later = [(("server" if c is server else "client"), data) for (step, c, data) in d.out_log[k["out_idx"] :]]
         if later:
             S.violate("forwarded-after-kill", {**witness, "killed_at": k["hook"], "how": k["how"], "sent_after_kill": later[:6]}, classify(proto, "kill.nothing", k))
-        S.check_kill_error(d, k, ("udp_error",) if udp else ("tcp_error",))
+        S.check_kill_error(d, k, ("udp_error",) if udp else ("tcp_error",), ended_before=("udp_end",) if udp else ("tcp_end",))
     feats = ("eof" if any(e[2].startswith("ConnectionClosed") for e in d.log if e[0] == "ev") else "open",)
     return S, d, feats, witness
 
